@@ -138,6 +138,11 @@ def boundaries(cfg, model):
         pts += [e - 2, e - 1, e, e + 1, e + 0x1234, 0xFFEFF]
     for (s, e) in cfg.get("readonly", []):
         pts += [s, e, e + 1]
+        if cfg.get("mirror") and 0xB8000 <= s <= 0xBFFFF:
+            # the mirror aliases of a write-protected cell (0x80000..0xB7FFF -> 0xB8000 + (a & 0x7FFF)) are protected too
+            pts += [s - 0x8000 * k for k in (1, 3, 7)] + [e - 0x8000 * k for k in (2, 7)]
+    if cfg.get("py_history"):
+        pts += [0x1000F0, 0x1000F1, 0x1000F2, 0x1000F0, 0x1000F2, 0xB8040, 0xB805F, 0xB8060, 0x40000, 0x41FFF]
     return pts
 
 
@@ -182,6 +187,15 @@ def configs(model, r):
                     if rom == "short":
                         cfg["rom_len"] = 0x8000      # image shorter than the 256 KiB window
                     out.append(cfg)
+        # the same final configurations reached through a history of configuration calls on the same object: a keyboard
+        # handler installed and switched off again (F0-F2 are plain internal bytes afterwards), a scratch RAM window added
+        # and removed, a card inserted and pulled
+        for rom in (False, True):
+            for hist in (["kbd_on", "kbd_off"], ["tmp_ram", "tmp_ram_remove"], ["kbd_on", "tmp_ram", "kbd_off", "tmp_ram_remove"],
+                         ["card_in", "card_out"], ["kbd_on", "kbd_on", "kbd_off"]):
+                out.append({"rom": rom, "card": "absent" if "card_in" in hist else 8192, "card_readonly": False,
+                            "card_loaded": "card_in" not in hist, "card_seed": 7, "overlays": _ovs("ram", r),
+                            "py_history": hist})
     else:
         for mirror in (False, True):
             for card in (None, "absent", 8192, 16384, 32768, 65536):
@@ -227,6 +241,19 @@ def build_py(cfg):
     m = PCE500Memory()
     if cfg.get("rom"):
         m.load_rom(seeded(99, cfg.get("rom_len", 0x40000)))
+    for h in cfg.get("py_history", []):
+        if h == "kbd_on":
+            m.set_keyboard_handler(lambda a, pc=None: 0xEE, lambda a, v, pc=None: None)
+        elif h == "kbd_off":
+            m.set_keyboard_handler(lambda a, pc=None: 0xEE, lambda a, v, pc=None: None, enable_overlay=False)
+        elif h == "tmp_ram":
+            m.add_ram(0xB8040, 0x20, "scratch")
+        elif h == "tmp_ram_remove":
+            m.remove_overlay("scratch")
+        elif h == "card_in":
+            m.load_memory_card(seeded(3, 8192), 8192, writable=True)
+        elif h == "card_out":
+            m.set_memory_card_present(False)
     c = cfg.get("card")
     if c == "absent":
         m.set_memory_card_present(False)
